@@ -399,6 +399,54 @@ theorem C16_failed_init_resets (G : Guards) (k : Kind) (sm : ClientSM) (e : Init
       · exact ⟨h2, h3⟩
     · simp [step, stepRaw, stepInit, hi', hv] at h
 
+/-- A handshake that breaks at the request or at its answer — network failure, HTTP 500, no usable answer, a refusal
+    (also one that carries a `result` next to its `error`), an unparsable result — puts no `notifications/initialized`
+    on the wire: on every kind, in every state. -/
+theorem C16_no_initialized_notification_after_refusal (G : Guards) (k : Kind) (sm : ClientSM) (e : InitEnv)
+    (h1 : e ≠ .ok) (h2 : e ≠ .dropNotif) : Msg.initNotif ∉ (step G k sm (.init e)).2.2 := by
+  cases e <;> simp at h1 h2 <;> cases k <;>
+    simp [step, stepRaw, stepInit, envValid, initStages, failInit] <;> (repeat' split) <;> simp
+
+/-- non-vacuity: the answer never comes (stdio), a refusal, then a good handshake: the request is the only message of
+    each broken handshake, operations in between are refused without traffic. -/
+example : trace Guards.all .stdio {} [.init .noAnswer, .req .listTools false, .init .rpcErr, .rootsChanged, .init .ok, .req .listTools false] =
+    [(.failed, .disconnected, [.initReq]), (.notInitialized, .disconnected, []), (.failed, .disconnected, [.initReq]),
+     (.notInitialized, .disconnected, []), (.ok, .initialized, [.initReq, .initNotif]), (.ok, .initialized, [.req .listTools])] := by decide
+
+/-- streamable: no answer teaches the client no session id (TerminateSession then has nothing to delete), a refusal does. -/
+example : trace Guards.all .streamable {} [.init .noAnswer, .terminate false, .init .rpcErr, .terminate false] =
+    [(.failed, .disconnected, [.initReq]), (.failed, .disconnected, []), (.failed, .disconnected, [.initReq]),
+     (.ok, .disconnected, [.delete])] := by decide
+
+/-! ## client: an answer that carries an `error` member is a refusal -/
+
+/-- Whenever the chain starts with the `error` test, a message with an id and an `error` member is an error response,
+    whatever else it carries (a `result`, null or not, in particular). -/
+theorem C16_error_member_wins (chain : List (Text × Text)) (rest : List (Text × Text))
+    (h : chain = (t!"error", t!"JSONRPCMessageTypeError") :: rest) (members : List Text) (he : t!"error" ∈ members) :
+    classifyById chain members = t!"JSONRPCMessageTypeError" := by
+  subst h; simp [classifyById, he]
+
+/-- Today's `parseJSONRPCMessageType` tests `error` first, then `result` (regenerated). -/
+theorem C16_message_type_chain_fact :
+    Mcp.Gen.messageTypeChain =
+      [(t!"error", t!"JSONRPCMessageTypeError"), (t!"result", t!"JSONRPCMessageTypeResponse")] := by decide
+
+theorem C16_error_member_wins_real (members : List Text) (he : t!"error" ∈ members) :
+    classifyById Mcp.Gen.messageTypeChain members = t!"JSONRPCMessageTypeError" :=
+  C16_error_member_wins _ _ C16_message_type_chain_fact members he
+
+/-- The order the fact rejects (`result` tested first): a refusal that also carries a `result` member is taken for a
+    success response — the stdio transport then hands `Initialize` a result and the handshake "succeeds". -/
+theorem C16_result_first_witness :
+    classifyById [(t!"result", t!"JSONRPCMessageTypeResponse"), (t!"error", t!"JSONRPCMessageTypeError")]
+      [t!"jsonrpc", t!"id", t!"result", t!"error"] = t!"JSONRPCMessageTypeResponse" := by decide
+
+/-- Both `Initialize` functions test `isErrorResponse` (which looks at the `error` member only) in a top-level `if`
+    whose every path returns an error, before they parse the result (regenerated). -/
+theorem C16_refusal_checked_first_fact :
+    Mcp.Gen.refusalCheckedFirst = [(t!"Client", true), (t!"StdioClient", true)] := by decide
+
 /-! ## client: invariants over all histories -/
 
 /-- Flag and reported state agree; `connected` is never reported between calls; an initialized client of a closing
